@@ -253,6 +253,8 @@ def check(case: t.Any, ctx: Ctx) -> None:
 
     # ---- copy / deepcopy / replace ---------------------------------------------------------------
     y = PM(a=insts[1][0], b=insts[1][1], c=tuple(insts[1][2]))       # d not supplied
+    if isinstance(getattr(y, 'd', None), list):
+        y.d.append(7)      # a defaulted list filled in after construction: part of the value, though not of the set-field record
     for src in (x, y):
         for (what, f) in (('copy', copy.copy), ('deepcopy', copy.deepcopy), ('__replace__()', lambda o: o.__replace__())):
             ctx.evaluated()
